@@ -72,6 +72,8 @@ static void run_case(int limit_s) {
   }
   for (;;) { ssize_t k = __real_read(pe[0], errbuf + en, sizeof errbuf - 1 - en); if (k <= 0) break; en += (size_t)k; }
   errbuf[en] = 0; close(pe[0]);
+  /* a child that dies may leave an unterminated partial line behind: the verdict starts on a line of its own */
+  printf("\n");
   if (timed_out) printf("verdict timeout\n");
   else if (strstr(errbuf, "ERROR: AddressSanitizer")) { char s[700]; summarize_asan(errbuf, s, sizeof s); printf("verdict %s\n", s); }
   else if (WIFSIGNALED(status)) printf("verdict signal %d\n", WTERMSIG(status));
